@@ -296,3 +296,41 @@ def run(ck):
     ck.ob('C26.release', 'C26.release/unlist-before-rekey', not late, hr_.loc(late[0][0]) if late else hr_.loc(),
           'handle_register calls remove_registration(session) before it overwrites session->peer_id / peer_hex (the listing is keyed by the old value)',
           late[0][1] if late else None)
+
+    # ---- identity stage always consumes its 32 bytes: handle_identity_ready has no exit that leaves them (and the state) in place ------------
+    hir = P.fn(R + 'handle_identity_ready')
+    ck.touch(hir)
+    cons = [i for i in hir.walk() if (hir.nodes[i].get('callee') or '').endswith('basic_string<char>::erase') and
+            any((hir.nodes[j].get('m') or '').endswith('ClientSession::read_buffer') for j in hir.walk(i))]
+    # exits before the erase are allowed only for: wrong state, fewer than 32 bytes buffered, or the claimed target already gone
+    # (the connector is then itself being closed by the target's teardown and is never dispatched again)
+    from props.common import refusal_reasons as _rr26
+    from sa.canon import norm as _n26, V as _V26, C as _C26
+    wit_h = None
+    if not cons:
+        wit_h = ['no erase of the identity bytes']
+    else:
+        cfg_h = Cfg.of(hir)
+        early = [r for r in hir.walk() if hir.nodes[r]['k'] == 'ReturnStmt' and not any(cfg_h.dominates(cfg_h.locate(c_), cfg_h.locate(r)) for c_ in cons)]
+        for r_, conds in _rr26(hir, lambda r: r in early):
+            for c_ in (conds or [('unconditional',)]):
+                txt = repr(c_)
+                ok_c = ("'state'" in txt and 'AwaitingIdentity' in txt and c_[0] == '!=') or \
+                    (c_[0] == '<' and "'read_buffer'" in txt and 'size' in txt) or \
+                    (c_[0] == 'u!' and ("'target'" in txt or 'partner' in txt))
+                if not ok_c and wit_h is None:
+                    wit_h = ['%s: return under `%s`' % (hir.loc(r_), txt[:90])]
+    ck.ob('C26.loop', 'C26.loop/identity-always-consumed', wit_h is None, hir.loc(),
+          'every path through handle_identity_ready removes the 32 identity bytes from read_buffer (an exit that leaves them while the state stays '
+          'AwaitingIdentity makes process_protocol spin forever)', wit_h)
+
+    # ---- tearing a pair down unlinks the survivor before anything else is done with it -------------------------------------------------------
+    dp = P.fn(R + 'detach_partner')
+    ck.touch(dp)
+    resets = [i for i in dp.walk() if (dp.nodes[i].get('callee') or '').endswith('::reset') and any((dp.nodes[j].get('m') or '').endswith('ClientSession::partner') for j in dp.walk(i))]
+    after = [i for i in dp.walk() if dp.nodes[i].get('callee') == R + 'close_session'] + \
+        [i for i, m_, w_ in field_accesses(dp) if w_ and m_ == R + 'registered_']
+    late_dp = must_precede(dp, after, lambda e, s_=set(resets): e in s_ or any(dp.is_in(x, e) for x in s_)) if resets and after else [(None, ['partner.reset() or the follow-up actions were not found'])]
+    ck.ob('C26.release', 'C26.release/unlink-before-close-or-relist', not late_dp, dp.loc(late_dp[0][0]) if late_dp and late_dp[0][0] is not None else dp.loc(),
+          'detach_partner resets the survivor\'s partner link before it closes or re-registers it (otherwise the survivor\'s own teardown detaches back and '
+          're-lists a session that is being closed)', late_dp[0][1] if late_dp else None)
